@@ -44,6 +44,22 @@ class C10(Prop):
         fam = op.split(" ", 1)[0]
         if fam not in ("scan", "scan_code", "finds", "finds_code"):
             return None
+        if fam.startswith("finds") and spec_field(spec, "nr") == "1":
+            # default criterion (C10_finds_iff_one_reported): finds succeeds precisely when the exhaustive scan
+            # from the same initial state reports exactly one match, whose captures it leaves in the save array;
+            # in-hypothesis = the pattern does not read the save array (no Check / Pir), any image, any range
+            if klass(impl) != "ok":
+                return None if impl.startswith("noimg") else "finds did not return on an in-hypothesis input: %s" % impl[:200]
+            m = re.match(r"ok ([01]) save=(\[[^\]]*\])$", impl)
+            if not m:
+                return "malformed answer %s" % impl[:200]
+            nrep = spec_field(spec, "nrep")
+            if nrep is None or not nrep.isdigit():
+                return "the model's exhaustive scan did not return (nrep=%s)" % nrep
+            if m.group(1) != ("1" if nrep == "1" else "0"):
+                return "finds answered %s but the exhaustive scan reports %s matches" % (m.group(1), nrep)
+            if nrep == "1" and m.group(2) != spec_field(spec, "rcaps"):
+                return "finds left %s in the save array, the only reported match has captures %s" % (m.group(2), spec_field(spec, "rcaps"))
         hyp = spec_field(spec, "hyp")
         if fam.startswith("finds") and STRICT_FINDS:
             # the literal statement: no "no match in the grey zone" hypothesis (false, see C10_finds_iff_unique_false)
